@@ -358,6 +358,7 @@ class FakeS3:
         self.faults = faults
         self.scripts = scripts or {}
         self.objects = {}
+        self.versions = {}       # (bucket, key) -> {version id: data}
         self.uploads = {}
         self.orphan_creates = []
         self.ncalls = 0
@@ -566,10 +567,8 @@ class FakeClient:
 
         def effect(rec):
             src = (kw['Bucket'], kw['Key'])
-            if src not in svc.objects:
-                raise FakeClientError('404 Not Found')
-            return {'ContentLength': len(svc.objects[src]),
-                    'ETag': '"head"'}
+            obj = self._object(src, kw.get('VersionId'), '404 Not Found')
+            return {'ContentLength': len(obj), 'ETag': '"head"'}
         return self._call('head_object', kw, effect)
 
     def get_object(self, **kw):
@@ -577,9 +576,7 @@ class FakeClient:
 
         def effect(rec):
             src = (kw['Bucket'], kw['Key'])
-            if src not in svc.objects:
-                raise FakeClientError('NoSuchKey')
-            data = svc.objects[src]
+            data = self._object(src, kw.get('VersionId'), 'NoSuchKey')
             rng = kw.get('Range')
             a = 0
             if rng is not None:
@@ -627,8 +624,19 @@ class FakeClient:
         else:
             b, _, k = str(copy_source).partition('/')
             src = (b, k)
+        vid = copy_source.get('VersionId') if isinstance(
+            copy_source, dict) else None
+        return self._object(src, vid, 'NoSuchKey (copy source)')
+
+    def _object(self, src, version_id, missing):
+        """the named version of an object, or its latest version"""
+        svc = self.svc
+        if version_id is not None and src in svc.versions:
+            if version_id not in svc.versions[src]:
+                raise FakeClientError('NoSuchVersion')
+            return svc.versions[src][version_id]
         if src not in svc.objects:
-            raise FakeClientError('NoSuchKey (copy source)')
+            raise FakeClientError(missing)
         return svc.objects[src]
 
     def copy_object(self, **kw):
